@@ -1297,13 +1297,19 @@ class Signature:
                     composite,
                     ctx,
                     typevar_values,
-                    # If position is None we can't narrow so don't bother.
-                    is_overload=is_overload and position is not None,
+                    # We can only narrow an argument that has a position of its own
+                    # (not one that came from *args or **kwargs).
+                    is_overload=is_overload and isinstance(position, (int, str)),
                 )
             )
             if tv_map is None:
                 had_error = True
-            if param_used_any:
+            if param_used_any and not (
+                position is DEFAULT
+                and param.kind
+                in (ParameterKind.VAR_POSITIONAL, ParameterKind.VAR_KEYWORD)
+            ):
+                # (an omitted *args or **kwargs is an empty container, not an Any match)
                 used_any = True
             if remaining_value is not None:
                 if isinstance(position, int):
